@@ -134,8 +134,9 @@ theorem invB_correct (s : State) : invB s = true ↔ ExclInv s := invB_iff s
 
 /-! ### checker soundness -/
 
-theorem pointOnSegment_correct (a b c : P2) (h : pointOnSegment a b c = true) : OnSeg a b c :=
-  pointOnSegment_sound a b c h
+/-- `pointOnSegment` is exact: it decides membership in the closed segment -/
+theorem pointOnSegment_correct (a b c : P2) : pointOnSegment a b c = true ↔ OnSeg a b c :=
+  ⟨pointOnSegment_sound a b c, pointOnSegment_complete a b c⟩
 
 example : pointOnSegment ⟨0, 0⟩ ⟨4, 2⟩ ⟨2, 1⟩ = true := by
   simp [pointOnSegment, cross]; norm_num
